@@ -36,10 +36,20 @@ Theorem C07_sites_provide : forall st, In st sites -> forall rho c, site_call rh
 Proof. exact site_calls_provide. Qed.
 Print Assumptions C07_sites_provide.
 
-(** and the thread fragment that makes the call (take the held locks, call, release) keeps it inside its guard *)
-Theorem C07_call_plan_guarded : forall c, gplan clock clock_eqb ccall ccall_eqb c_guard [] [] (call_plan c).
-Proof. exact call_plan_guarded. Qed.
-Print Assumptions C07_call_plan_guarded.
+(** The plans: for each site the generator emits the ordered Lock/Unlock steps from the start of the
+    handler; Coq recomputes the held set from the plan (Sym.pheld) — every check above is evaluated on
+    the recomputed set — and it coincides with the set the generator's own bookkeeping emitted. *)
+Theorem C07_plans_match : forall st, In st sites -> paths_match st = true.
+Proof. exact plans_match. Qed.
+Print Assumptions C07_plans_match.
+
+(** The thread fragment of a call site (its plan, the call, then releasing what is held) keeps the call
+    inside its guard, and that guard is exactly what the plan holds there: from the plan alone, for every
+    valuation of the symbolic node names that respects the tree relations they express. *)
+Theorem C07_site_thread_guarded : forall st, In st sites -> forall rho c, site_call rho st = Some c ->
+  respects rho (full_path st) -> gplan clock clock_eqb ccall ccall_eqb c_guard [] [] (site_thread rho st).
+Proof. exact site_thread_gplan. Qed.
+Print Assumptions C07_site_thread_guarded.
 
 (** C07_contract: in every interleaving of any number of request threads on any number of
     connections: write-class calls on a directory / SetAttr on a node never overlap each other or
@@ -52,6 +62,16 @@ Theorem C07_contract : forall plans, (forall p, In p plans -> gplan clock clock_
     In c1 (inside ti) -> In c2 (inside tj) -> cprovides c1 -> cprovides c2 -> conflicts c1 c2 -> False.
 Proof. exact contract. Qed.
 Print Assumptions C07_contract.
+
+(** End to end: any number of threads, each running the fragment of a call site of the table under its
+    own valuation: documented-exclusive calls never overlap. *)
+Theorem C07_contract_sites : forall (ths : list (site * (snode -> node))),
+  (forall st rho, In (st, rho) ths -> In st sites /\ respects rho (full_path st) /\ exists c, site_call rho st = Some c) ->
+  forall s, reachable clock clock_eqb ccall ccall_eqb (map (fun x => site_thread (snd x) (fst x)) ths) s ->
+  forall i j ti tj c1 c2, i <> j -> nth_error s i = Some ti -> nth_error s j = Some tj ->
+    In c1 (inside ti) -> In c2 (inside tj) -> cprovides c1 -> cprovides c2 -> conflicts c1 c2 -> False.
+Proof. exact sites_contract. Qed.
+Print Assumptions C07_contract_sites.
 
 (** Open: every File.Open site holds the fidRef's openMu, and [opened] is written under openMu and the node lock *)
 Theorem C07_open_sites_ok : forall st, In st sites -> open_ok st = true.
@@ -75,3 +95,7 @@ Example C07_conflict_example :
   conflicts (mkCall "SetAttr" ["d"] None [(RenameMu, false); (OpMu ["d"], true)])
             (mkCall "GetAttr" ["d"] None [(RenameMu, false); (OpMu ["d"], false)]).
 Proof. vm_compute. auto. Qed.
+
+(** the valuation hypothesis [respects] is satisfiable for every site of the table *)
+Theorem C07_valuations_exist : forall st, In st sites -> respects rho_ex (full_path st).
+Proof. exact canonical_respects. Qed.
